@@ -53,7 +53,7 @@ def indOp (st : DState) (r : PyM (IndState Float)) : DState × List String :=
 def showRes (r : PyM (Val Float)) : String :=
   match r with
   | .ok v => showVal v
-  | .error e => s!"err {e}"
+  | .error e => s!"aerr {e}"
 
 /-- read-only accessors of an indicator object -/
 def indAcc (s : IndState Float) (what : String) (ps : List (String × String)) : String :=
@@ -65,7 +65,7 @@ def indAcc (s : IndState Float) (what : String) (ps : List (String × String)) :
   | "active" => toString s.active
   | "has_reading" => match s.hasReading with
     | .ok b => toString b
-    | .error e => s!"err {e}"
+    | .error e => s!"aerr {e}"
   | "reading" => showRes (x.reading nm idx)
   | "prev_reading" => showRes (x.prevReading nm)
   | "as_list" => " ".intercalate ((s.asList (param ps "name")).map showVal)
@@ -260,10 +260,10 @@ def step (st : DState) (line : String) : DState × List String :=
         | "prev_reading" => showRes (h.prevReading nm)
         | "has_reading" => match h.hasReading nm with
           | .ok b => toString b
-          | .error e => s!"err {e}"
+          | .error e => s!"aerr {e}"
         | "as_list" => match h.readingAsList nm with
           | .ok l => " ".intercalate (l.map showVal)
-          | .error e => s!"err {e}"
+          | .error e => s!"aerr {e}"
         | "names" => " ".intercalate (h.indicators.map (·.1))
         | _ => "bad-acc"
       (st, [out])
